@@ -1,6 +1,10 @@
 package c18
 
 import (
+	sdns "github.com/bokysan/socketace/v2/internal/streams/dns"
+	"github.com/bokysan/socketace/v2/internal/streams/dns/commands"
+	"github.com/bokysan/socketace/v2/internal/streams/dns/util"
+	"github.com/bokysan/socketace/v2/internal/util/enc"
 	"crypto/tls"
 	"encoding/json"
 	"fmt"
@@ -30,7 +34,7 @@ type WiringCase struct {
 
 func wiringCases() []WiringCase {
 	var out []WiringCase
-	for _, s := range []string{"tcp", "tcp+tls", "unix", "unix+tls", "http", "https", "ws", "wss", "http+tls", "ws+tls", "stdin", "stdin+tls", "stdio", "stdio+tls"} {
+	for _, s := range []string{"tcp", "tcp+tls", "unix", "unix+tls", "http", "https", "ws", "wss", "http+tls", "ws+tls", "stdin", "stdin+tls", "stdio", "stdio+tls", "dns", "dns+udp", "dns+tcp", "dns+tcp+tls"} {
 		out = append(out, WiringCase{"server", s})
 	}
 	for _, s := range []string{"tcp", "tcp+tls", "unix", "unix+tls", "http", "https", "ws", "wss", "stdin", "stdin+tls"} {
@@ -122,6 +126,9 @@ func runWiring(w WiringCase) (kind, detail string) {
 		}
 		cfg := map[string]interface{}{"address": address, "certificate": p.Server.CertPEM, "privateKey": p.Server.KeyPEM,
 			"endpoints": []interface{}{map[string]interface{}{"endpoint": "/ws"}}}
+		if strings.HasPrefix(w.Scheme, "dns") {
+			return runDnsServerWiring(w, address, host, p)
+		}
 		js, _ := json.Marshal([]interface{}{cfg})
 		var servers server.Servers
 		if err := servers.UnmarshalJSON(js); err != nil {
@@ -335,6 +342,93 @@ func runWiring(w WiringCase) (kind, detail string) {
 		case <-done:
 		case <-time.After(10 * time.Second):
 			return "inconclusive", "Connect did not return"
+		}
+	}
+	return "", ""
+}
+
+
+// runDnsServerWiring: a DNS server endpoint started from configuration text; what actually
+// listens on the port must be the documented transport: a DNS responder over UDP (dns,
+// dns+udp), over TCP (dns+tcp), or over TLS over TCP (dns+tcp+tls) - and nothing else.
+func runDnsServerWiring(w WiringCase, address, host string, p *pki.PKI) (kind, detail string) {
+	cfg := map[string]interface{}{"address": address, "domain": "example.org", "certificate": p.Server.CertPEM, "privateKey": p.Server.KeyPEM}
+	js, _ := json.Marshal([]interface{}{cfg})
+	var servers server.Servers
+	if err := servers.UnmarshalJSON(js); err != nil {
+		return "rejects-documented", err.Error()
+	}
+	if err := servers[0].Startup(server.Channels{}); err != nil {
+		return "startup-failed", err.Error()
+	}
+	defer servers[0].Shutdown()
+	time.Sleep(1300 * time.Millisecond) // the handler is installed one second after the listener
+	query := func() []byte {
+		// a tunnel version request: the endpoint answers tunnel queries only
+		ser := commands.Serializer{Domain: "example.org", Upstream: util.UpstreamConfig{Encoder: enc.Base32Encoding}}
+		m, err := ser.EncodeDnsRequestWithParams(&commands.VersionRequest{ClientVersion: sdns.ProtocolVersion}, util.QueryTypeNull, enc.Base32Encoding)
+		if err != nil {
+			return nil
+		}
+		b, _ := m.Pack()
+		return b
+	}
+	answersUDP := func() bool {
+		c, err := net.Dial("udp", host)
+		if err != nil {
+			return false
+		}
+		defer c.Close()
+		c.SetDeadline(time.Now().Add(2 * time.Second))
+		c.Write(query())
+		b := make([]byte, 4096)
+		n, err := c.Read(b)
+		return err == nil && n >= 12
+	}
+	tcpOpen := func() (net.Conn, bool) {
+		c, err := net.DialTimeout("tcp", host, 2*time.Second)
+		return c, err == nil
+	}
+	answersTCP := func(c net.Conn) bool {
+		q := query()
+		c.SetDeadline(time.Now().Add(2 * time.Second))
+		c.Write(append([]byte{byte(len(q) >> 8), byte(len(q))}, q...))
+		b := make([]byte, 2)
+		_, err := io.ReadFull(c, b)
+		return err == nil
+	}
+	udp := answersUDP()
+	c, tcp := tcpOpen()
+	if c != nil {
+		defer c.Close()
+	}
+	switch w.Scheme {
+	case "dns", "dns+udp":
+		if !udp {
+			return "inconclusive", "no DNS answer over UDP within 2 s"
+		}
+		if tcp {
+			return "wrong-transport|dns", "a TCP listener is open on the port of a UDP DNS endpoint"
+		}
+	case "dns+tcp":
+		if udp {
+			return "wrong-transport|dns", "the endpoint documented as DNS over TCP answers over UDP"
+		}
+		if !tcp {
+			return "wrong-transport|dns", "no TCP listener on the port of a dns+tcp endpoint"
+		}
+		if !answersTCP(c) {
+			return "not-plaintext", "the dns+tcp endpoint does not answer a plain DNS-over-TCP query"
+		}
+	case "dns+tcp+tls":
+		if udp {
+			return "plaintext-instead-of-tls", "the endpoint documented as DNS over TLS answers plain DNS queries over UDP"
+		}
+		if !tcp {
+			return "plaintext-instead-of-tls", "no TCP listener on the port of a dns+tcp+tls endpoint (UDP answering: false)"
+		}
+		if !speaksTLS(c) {
+			return "plaintext-instead-of-tls", "the dns+tcp+tls endpoint did not complete a TLS handshake"
 		}
 	}
 	return "", ""
